@@ -179,6 +179,11 @@ struct UnknownSymbolError : public Error {
     Error(location, (boost::format("could not find symbol %s") % name).str()) {}
 };
 
+struct NonConstValError : public Error {
+  NonConstValError(Location location, std::string name) :
+    Error(location, (boost::format("val %s is not constant") % name).str()) {}
+};
+
 struct NonConstArrayLengthError : public Error {
   NonConstArrayLengthError(Location location, std::string name) :
     Error(location, (boost::format("array %s length is not constant") % name).str()) {}
@@ -786,7 +791,7 @@ public:
 
 class ValDecl : public Decl {
   std::unique_ptr<Expr> expr;
-  int exprValue;
+  std::optional<int> exprValue;
 public:
   ValDecl(Location location, std::string name, std::unique_ptr<Expr> expr) :
       Decl(location, name), expr(std::move(expr)) {}
@@ -797,8 +802,9 @@ public:
     visitor->visitPost(*this);
   }
   Expr *getExpr() const { return expr.get(); }
-  int getValue() const { return exprValue; }
-  void setValue(int value) { exprValue = value; }
+  bool hasValue() const { return exprValue.has_value(); }
+  int getValue() const { return exprValue.value(); }
+  void setValue(int value) { exprValue.emplace(value); }
 };
 
 class VarDecl : public Decl {
@@ -1823,6 +1829,10 @@ public:
   void visitPost(ValDecl &decl) {
     if (decl.getExpr()->isConst()) {
       decl.setValue(decl.getExpr()->getValue());
+    } else {
+      // Only constant abbreviations are supported; there is no value to
+      // propagate or to generate code from otherwise.
+      throw NonConstValError(decl.getLocation(), decl.getName());
     }
   }
   void visitPost(BinaryOpExpr &expr) {
@@ -1883,6 +1893,10 @@ public:
       auto symbol = symbolTable.lookup(std::make_pair(getCurrentScope(), expr.getName()),
                                        expr.getLocation());
       if (auto symbolExpr = dynamic_cast<const ValDecl*>(symbol->getNode())) {
+        if (!symbolExpr->hasValue()) {
+          // Used before its declaration has been evaluated.
+          throw NonConstValError(expr.getLocation(), expr.getName());
+        }
         expr.setSysCallId(symbolExpr->getValue());
       } else {
         return;
@@ -1900,7 +1914,10 @@ public:
     auto symbol = symbolTable.lookup(std::make_pair(getCurrentScope(), expr.getName()),
                                      expr.getLocation());
     if (auto symbolExpr = dynamic_cast<const ValDecl*>(symbol->getNode())) {
-      expr.setValue(symbolExpr->getValue());
+      // A val that is referred to before its own declaration has no value yet.
+      if (symbolExpr->hasValue()) {
+        expr.setValue(symbolExpr->getValue());
+      }
     }
   }
 };
